@@ -175,6 +175,10 @@ def add_py_writer(ck, pid, lmax=3):
             ck.add(pysym.obligations_of(outs, func))
     finally:
         mod.np, mod._py_rf_write_hdf5 = real_np, real_ext
+    if pid == "C19":
+        # C19 speaks about the counters and return values; which calls are refused is C05's
+        ck.obls[:] = [o for o in ck.obls if not (o.label.endswith("accept_only_forward") or o.label.endswith("accept_only_wellformed")
+                                                 or o.label.endswith("reject_only_before_cursor") or o.label.endswith("reject_only_malformed"))]
     if pid == "C05":
         # C05 speaks about refusals; what the counters become after an accepted call is C19's
         ck.obls[:] = [o for o in ck.obls if not o.label.endswith(".counters")]
